@@ -32,7 +32,7 @@ RULE = ("part 'history': random histories over log / add_destinations(1-3 new de
         "throughout receives everything once. non-trivial = history with >=2 adds and a "
         "remove, or >1000 buffered; schedule whose preemption fired inside Destinations.add/send; distinct by history / interleaving hash")
 ASSUMPTIONS = ["switch points are statement boundaries and blocking primitives (CPython granularity)",
-               "each destination object is registered at most once at a time",
+               "a destination object may be registered twice (it is then offered every message twice)",
                "destination objects that compare equal to one another are never passed to remove_destination (removal is by equality)"]
 EXHAUSTIVE_NOTE = "hand-over: all one-preemption schedules for every priority order of each generated thread set"
 CASE_TIMEOUT = 1200
@@ -78,9 +78,12 @@ def gen_history(rng):
             ops.append(("remove", d))
         elif r < 0.88:
             ops.append(("globals", {rng.choice(["g1", "g2", "host"]): rng.randint(0, 99)}))
-        elif r < 0.94 and live and ndest < 9:
-            # re-register a previously removed destination
-            ops.append(("log",))
+        elif r < 0.94 and live:
+            # the same destination object registered a second time (it is then offered every message twice, and one
+            # remove_destination takes away one registration)
+            d = rng.choice(live)
+            live.append(d)
+            ops.append(("readd", d))
         else:
             ops.append(("logaction",))
     return ops
@@ -207,9 +210,14 @@ def run_history(ops):
                             if i in one_shot:
                                 m_dests.remove(i)
                 m_buffer = []
+        elif op[0] == "readd":
+            if op[1] in m_dests and op[1] not in one_shot and not isinstance(dests[op[1]], EqDest):
+                add_destinations(dests[op[1]])
+                m_dests.append(op[1])
         elif op[0] == "remove":
-            remove_destination(dests[op[1]])
-            m_dests.remove(op[1])
+            if op[1] in m_dests:
+                remove_destination(dests[op[1]])
+                m_dests.remove(op[1])
         elif op[0] == "globals":
             add_global_fields(**op[1])
             m_globals.update(op[1])
@@ -447,7 +455,9 @@ def registry_once(plan_, ops):
         return d
     base = make("base")
     pre = {name: make(name) for kind, name in ops if kind == "remove"}
+    tail = make("tail")  # registered behind the ones that get removed: it must never be affected by their removal
     add_destinations(base, *pre.values())
+    add_destinations(tail)
     new = {name: make(name) for kind, name in ops if kind == "add"}
     logged = []
 
@@ -479,6 +489,9 @@ def part_registry(spec, res):
         ops.append((rng.choice(["add", "add", "remove"]), "d%d" % j))
     if rng.random() < 0.5:
         ops.append(("log", "logger"))
+    if spec["i"] % 3 == 1:
+        # two threads removing different destinations at the same time (and one logging)
+        ops = [("remove", "d0"), ("remove", "d1"), rng.choice([("log", "logger"), ("remove", "d2"), ("add", "d3")])]
     if spec["i"] % 3 == 2:
         # two threads setting global fields at the same time (and one adding a destination or logging)
         ops = [("globals", "a"), ("globals", "b"), rng.choice([("add", "d2"), ("log", "logger"), ("globals", "c")])]
@@ -516,6 +529,9 @@ def part_registry(spec, res):
             if want_g and tapes.get("final_globals") != want_g:
                 problems.append("global fields set by concurrent add_global_fields calls that all returned: a message logged afterwards carries %s, expected %s" % (
                     tapes.get("final_globals"), want_g))
+            tail = tapes.get("tail", [])
+            if tail.count("final") != 1 or [x for x in tail if x != "final"] != data["logged"]:
+                problems.append("the destination registered behind the removed ones received %s, logged %s + final" % (tail, data["logged"]))
             base = tapes.get("base", [])
             if base.count("final") != 1 or [x for x in base if x != "final"] != data["logged"]:
                 problems.append("the destination registered throughout received %s, logged %s + final" % (base, data["logged"]))
